@@ -24,7 +24,7 @@ CLAIMS = {
             "vendor tables transcribed by hand from docs/protocol PDFs (text in spec/vendor); quick-timer / timer-control messages are undocumented: repo-derived oracle; header address/CRC clauses rest on the header-factory and _write contracts."),
     "C05": ("proof", "Every status/ability/name/version/error decoder run on an arbitrary payload (all byte values simultaneously; record loops by loop contract for any count, AT5 with announced stride): each decoded field equals the vendor reading of its bits, documented not-available sentinels decode to absent, otherwise the decoder raises a rejection exception. One known finding (AT4 AC-status temperature sentinel).",
             "vendor tables transcribed by hand; where the document is silent the code's choice is accepted (noted in the contracts); variable-length records bounded where labelled."),
-    "C06": ("proof", "Crc16Modbus.calculate equals the bitwise reference CRC-16/MODBUS for every buffer by induction over the real loop (loop invariant; table-vs-bitwise step lemma over bit-vectors with the 256-entry table read from the source), validate <=> equality, _read_one_message returns a frame only if the received check bytes equal the CRC of header span ++ payload, a failed frame is followed by reset_connection, plus lemmas on the reference (step injective, byte difference propagates, two-byte kernel).",
+    "C06": ("proof", "Crc16Modbus.calculate equals the bitwise reference CRC-16/MODBUS for every buffer by induction over the real loop (loop invariant stated relative to the register the loop is entered with; table-vs-bitwise step lemma over bit-vectors with the 256-entry table read from the source), data handed over in parts is refused with TypeError or checksummed as the joined bytes (crc16.calculate.parts), validate <=> equality, _read_one_message returns a frame only if the received check bytes equal the CRC of header span ++ payload, a failed frame is followed by reset_connection, plus lemmas on the reference (step injective, byte difference propagates, two-byte kernel).",
             "uninterpreted CRC function with definitional instances; burst/double-bit detection beyond two adjacent bytes is a property of the polynomial and only partly mechanised (thorough tier: affine lemma)."),
     "C07": ("proof", "Safety core as local contracts of every coroutine of socket.py under interference: _connect attempts only while open, closes a connection that completes after close()/another connect, retries after exactly 2.0 s, always starts the read loop on the connected path; _disconnect closes the connection it held before anything else runs; reset_connection disconnects then schedules one connect; _read/_drain/_connect/_disconnect let no exception out given the codec exception contracts; every failed frame resets.",
             "'at most one open connection, every abandoned one closed' is closed over histories by lemmas/Conn.lean (Lean 4) from the _connect / _disconnect contracts; liveness ('within bounded time once the network behaves') remains an on-paper ranking argument: out of reach of contracts; asyncio models (validated on samples, lib.* sets); external cancellation excluded."),
